@@ -222,15 +222,27 @@ def _check_rounding(pid, fty, tier):
         h, _ = E.r_poly_double_round(fixture)
         rep.add("controls", [E.control_obs("S", "float-to-float cast", h, "ctl_double_round")])
     rep.analysed = {"configurations": cl, "float": fty}
+    # D-rule: the fields handed to extended_to_float pack without corrupting the exponent field -- the moderate stage's exits (protocol
+    # post-condition), round's post-condition and the packing helper, for this float type
+    scl = ["default", "compact"] if tier == "quick" else E4_CONFIGS
+    jobs = _cutoff_jobs(scl) + [{"config": c, "mode": "dbg", "model": "valid", "kind": "fn", "target": "minimal_lexical::rounding::round", "pre": "round", "post": "round"} for c in scl]
+    results = run_jobs(jobs)
+    sfx = F.build_many([(c, "rel") for c in scl])
+    tag = "<%s>" % fty
+    _e4_report(rep, "C11", results, lambda j: "%s %s" % (j["config"], "stage" if j.get("post") == "cutoff" else "round"),
+               {"%s %s" % (c, k): sfx[(c, "rel")] for c in scl for k in ("stage", "round")},
+               fn_filter=lambda o: o["kind"].startswith("post:") and tag in o["fn"], floor_per_group=1)
     rep.note("NOT decided: that the Eisel-Lemire / Bellerophon / big-integer algorithms round correctly. Decided: the per-format constants equal their IEEE-derived definitions (equalities) or lie on the necessary side of their bound (one-sided), every table entry equals its definition" + ("; single-rounding structure" if fty == "f32" else ""))
     return rep.finish(
         "other",
         "Static necessary conditions of correct rounding for %s: (K) every Float associated constant as evaluated by rustc equals its "
         "definition from the compiler's own MANTISSA_DIGITS/MAX_EXP (masks, biases, INFINITE_POWER) or satisfies the one-sided bound whose "
         "violation must change some result (fast-path limits, tie window, decimal cut-offs, MAX_DIGITS >= longest midpoint expansion, computed "
-        "exactly); (T) every power-table entry equals its definition%s. The numerical behaviour itself (nearest-even for every input) is not decided "
-        "by this check." % (fty, "; (S) the f32 instantiation contains no f64 value, so the result cannot be an f64 rounded a second time" if fty == "f32" else ""),
-        [A_TOOL, A_TARGET, "one-sided rules are armed only in the direction that is a necessary condition"],
+        "exactly); (T) every power-table entry equals its definition%s; (D) every exit of the moderate stage is either declined with a normalised "
+        "significand or definite with fields that pack without touching the exponent field, every early zero/infinity is implied by the exponent bound of "
+        "its path, and round() re-establishes the packable range (never NaN) -- abstract interpretation of the %s instances. The numerical behaviour "
+        "itself (nearest-even for every input) is not decided by this check." % (fty, "; (S) the f32 instantiation contains no f64 value, so the result cannot be an f64 rounded a second time" if fty == "f32" else "", fty),
+        A_E4 + [A_TOOL, A_TARGET, "one-sided rules are armed only in the direction that is a necessary condition"],
     )
 
 
